@@ -36,7 +36,7 @@ def dump_mir(overflow_checks='on'):
 
 def kind_class(kind):
     k = kind.lower()
-    if 'derived through a shared borrow' in k:
+    if 'derived through a shared borrow' in k or 'dangling reference' in k:
         return 'provenance'
     if 'zero-size allocation' in k:
         return 'zero-size-alloc'
